@@ -1,4 +1,6 @@
 import SFV.Lemmas.GatherMore
+import SFV.Lemmas.GatherTerm
+import SFV.Lemmas.GatherNested
 /-! # C01 — scatter then gather returns the original list in its original order
 
 Property theorems only; the development is in `SFV/Lemmas/Gather*.lean`, the model in `SFV/Model/Gather.lean`.
@@ -88,6 +90,24 @@ theorem gather_multi_key {V} (ins : List (Tag × List V)) (hnd : (ins.map (·.1)
     es hperm pa pb hab sa sb
   exact ⟨this.1, by simpa using this.2⟩
 
+/-- **termination tokens anywhere.** The termination token of one port may arrive while tokens of the other port
+    are still to come (e.g. the size port terminates right after the size token, before any element): the first
+    termination token `p` may sit anywhere, provided nothing of its own port follows it (FIFO). Same outputs. -/
+theorem gather_termination_anywhere {V} (ins : List (Tag × List V)) (hnd : (ins.map (·.1)).Nodup) (a b : List (Ev V))
+    (h : (a ++ b).Perm (ins.flatMap (fun i => scatterEvents i.1 i.2)))
+    (p q : PortId) (hpq : p ≠ q) (hpb : ∀ e ∈ b, portOf e ≠ p) (sa sb : Status) :
+    (run 1 (a ++ [.term p sa] ++ b ++ [.term q sb])).out.Perm (ins.map (fun i => (i.1, (scatter i.1 i.2).1))) ∧
+    (run 1 (a ++ [.term p sa] ++ b ++ [.term q sb])).terminated =
+      some (getStatus (reduce2 (reduce2 .skipped sa) sb) ins.isEmpty) := by
+  have hdata : ∀ e ∈ a ++ b, IsData e := by
+    intro e he
+    obtain ⟨i, _, hei⟩ := List.mem_flatMap.mp (h.subset he)
+    simp only [scatterEvents, List.mem_append, List.mem_map, List.mem_singleton] at hei
+    rcases hei with ⟨t, _, rfl⟩ | rfl <;> trivial
+  rw [run_term_middle 1 a b p q sa sb (fun e he => hdata e (List.mem_append_left _ he))
+    (fun e he => hdata e (List.mem_append_right _ he)) hpb]
+  exact gather_multi_key ins hnd (a ++ b) h p q hpq sa sb
+
 /-- **depth parameter.** One gather step with `depth = 2` fed with the leaves of a scatter of scatters (tags
     `p.i.j`) and a size token announcing their number: exactly one list tagged `p` with all leaves in row-major
     (numeric) order, whatever the arrival order. -/
@@ -98,6 +118,23 @@ theorem gather_depth2 {V} (p : Tag) (xss : List (List V)) (es : List (Ev V))
   have := gather_groups 2 [(p, (scatter2 p xss).flatMap (·.2))] (by simp)
     (by intro g hg; simp at hg; subst hg; exact scatter2_leaves_key p xss)
     (by intro g hg; simp at hg; subst hg; exact scatter2_leaves_sorted p xss)
+    es (by simpa [groupEvents] using h) pa pb hab sa sb
+  exact List.perm_singleton.mp this.1
+
+/-- **depth parameter, any depth.** One gather step with `depth = d` fed, in any order, with the leaves of `d`
+    nested scatters of the token `t` (`leavesAt d t`, tags `t.tag ++ q` with `|q| = d`) and a size token announcing
+    their number: exactly one list tagged `t.tag` holding the leaves in row-major (numeric) order. -/
+theorem gather_depth_any {V} (d : Nat) (t : Tok (NV V)) (es : List (Ev (NV V)))
+    (h : es.Perm ((leavesAt d t).map Ev.elem ++ [Ev.size t.tag (leavesAt d t).length]))
+    (pa pb : PortId) (hab : pa ≠ pb) (sa sb : Status) :
+    (run d (es ++ [.term pa sa, .term pb sb])).out = [(t.tag, leavesAt d t)] := by
+  have := gather_groups d [(t.tag, leavesAt d t)] (by simp)
+    (by
+      intro g hg x hx
+      simp at hg; subst hg
+      obtain ⟨q, hq, hxq⟩ := leavesAt_tags d t x hx
+      rw [hxq]; exact keyOf_append d t.tag q hq)
+    (by intro g hg; simp at hg; subst hg; exact leavesAt_sorted d t)
     es (by simpa [groupEvents] using h) pa pb hab sa sb
   exact List.perm_singleton.mp this.1
 
@@ -135,6 +172,28 @@ theorem gather_nested {V} (p : Tag) (xss : List (List V)) (es1 : List (Ev V)) (e
     (by intro g hg; simp at hg; subst hg; exact hsorted)
     es2 hp2 pc pd hcd sc sd
   exact List.perm_singleton.mp this.1
+
+/-- **nested scatters of ANY depth `d`.** A token `⟨p, v⟩` whose value is a `d`-level nested list is scattered `d`
+    times and regathered by `d` chained gather steps; `Regather d [⟨p, v⟩] out` lets EVERY stage see its tokens (the
+    list tokens of the previous stage, in the order they happened to be emitted, and the size tokens of the matching
+    scatter level) in an arbitrary interleaving. The result is exactly the original token: same tag, same nested value
+    (hence every sub-list in its original order). Instantiate `d` at 1, 2, 3 for the property's range. -/
+theorem gather_nested_any_depth {V} (d : Nat) (p : Tag) (v : NV V) (hv : Deep d v) (out : List (Tok (NV V)))
+    (h : Regather d [⟨p, v⟩] out) : out = [⟨p, v⟩] :=
+  List.perm_singleton.mp (regather_perm d [⟨p, v⟩] out (by simp) (by simpa using hv) h)
+
+/-- the same for several nested tokens with distinct tags regathered together -/
+theorem gather_nested_any_depth_multi {V} (d : Nat) (T out : List (Tok (NV V))) (hnd : (T.map (·.tag)).Nodup)
+    (hdeep : ∀ t ∈ T, Deep d t.val) (h : Regather d T out) : out.Perm T :=
+  regather_perm d T out hnd hdeep h
+
+/-- non-vacuity of `Regather`: a one-level instance with its tokens in scatter order; and a 3-deep value -/
+example : Regather 1 [(⟨[0], .node [.leaf 1, .leaf 2]⟩ : Tok (NV Nat))]
+    ((run 1 ((([(⟨[0], .node [.leaf 1, .leaf 2]⟩ : Tok (NV Nat))].flatMap scatterElems).map Ev.elem ++
+        [(⟨[0], .node [.leaf 1, .leaf 2]⟩ : Tok (NV Nat))].map sizeEv) ++ [.term .size .completed, .term .elem .completed])).out.map asTokNV) :=
+  .succ _ .size .elem (by decide) .completed .completed (.zero (List.Perm.refl _)) (List.Perm.refl _) rfl
+example : Deep 3 (NV.node [.node [.node [.leaf 1, .leaf 2], .node []], .node []] : NV Nat) := by
+  simp [Deep]
 
 /-- **forced gathering.** If the size token never arrives, the elements received for key `p` (in arrival order
     `ts`, any tags with key `p` under `depth`) are gathered when both ports have terminated — sorted by tag —
